@@ -519,6 +519,11 @@ def generate(prop: str, seed: int, tier: str = "quick", fault_free: bool = False
         # the defaults): warnings turned into errors (-W error), asyncio debug mode, eager task
         # start (3.12 task factory), cyclic gc off / very eager, Python's default recursion limit
         e = st.get("env")
+        for d in datasets:
+            # the application's dataset class: plain / with a catch-all __getattr__ / with
+            # attributes under everyday names (title, name, cache, ...)
+            if not d.get("wrapped"):
+                d["flavour"] = e.choice(["plain", "plain", "plain", "proxy", "labelled"])
         config["env"] = {
             "warnings_error": e.random() < 0.2,
             "asyncio_debug": e.random() < 0.2,
@@ -762,6 +767,47 @@ def _add_reentrancy(x, ops, config, prop):
     return out
 
 
+def _burst(x, sites, prop):
+    """Volume: one create-(use)-drop loop of hundreds of iterations, each with a lambda (or a
+    captured value) of its own - whatever the library keeps per query, per text or per value
+    fills up, wraps around or gets evicted; the history goes on afterwards."""
+    n = x.choice([64, 150, 300, 300, 600])
+    every = x.choice([1, 7, 50, 10 ** 6])
+    parent = x.randrange(64)
+    if prop == "C16" or x.random() < 0.25:
+        # one derivation path with hundreds of QMetaData calls (a loop that records every cut):
+        # a few keys set early, some of them twice, then a long tail of other settings
+        out = [{"op": "qmd", "parent": parent, "md": {"title": "draft", "k0": 1}},
+               {"op": "qmd", "parent": -1, "md": {"title": "final"}}]
+        for i in range(n):
+            if x.random() < 0.15:
+                out.append({"op": "derive", "parent": -1, "lam": x.randrange(64), "mode": "str"})
+            out.append({"op": "qmd", "parent": -1, "md": {x.choice(["k1", "k2", "K0"]): f"cut{i}"},
+                        "burst": True})
+        return out
+    site_ks = [k for k, s in enumerate(sites) if s["free"] and not s.get("boom") and not s.get("reent")]
+    use_site = prop == "C04" or (site_ks and x.random() < 0.3)
+    out = []
+    for i in range(n):
+        if use_site and site_ks:
+            k = x.choice(site_ks[:2])
+            name = x.choice(sites[k]["free"])
+            if name == "G2":
+                out.append({"op": "rebind", "name": name, "value": ["str", f"t{i}"]})
+            else:
+                out.append({"op": "rebind", "name": name, "value": ["int", 1000 + i]})
+            out.append({"op": "derive", "parent": parent, "lam": k, "mode": "site"})
+        else:
+            src = x.choice([["Select", f"lambda e: e.x + {i}"], ["Where", f"lambda e: e.x > {i}"],
+                            ["Select", f"lambda e: e.jets.Select(lambda j: j.pt * {i})"]])
+            out.append({"op": "derive", "parent": parent, "lam": 0, "mode": "str", "src": src})
+        if i % every == every - 1:
+            out.append({"op": "exec_sync", "stream": -1, "titled": True, "override": False,
+                        "plan": ["ok", 0.0, "token"]})
+        out.append({"op": "drop", "stream": -1, "gc": False, "burst": True})
+    return out
+
+
 def _add_lifetime(x, ops, sites, prop):
     """Fault family "object lifetime" (post-pass, own PRNG stream): streams are dropped (their
     nodes die and the addresses are re-used), collections are forced, the same operation is
@@ -776,7 +822,10 @@ def _add_lifetime(x, ops, sites, prop):
         elif "scope" not in s and x.random() < 0.35:
             s["scope"] = "param"
     out = []
-    for op in ops:
+    burst_at = x.randrange(len(ops) + 1) if x.random() < 0.04 else None
+    for pos, op in enumerate(ops):
+        if pos == burst_at:
+            out.extend(_burst(x, sites, prop))
         out.append(op)
         k = op["op"]
         if k == "derive" and "stack" not in op and x.random() < 0.25:
@@ -1070,8 +1119,49 @@ class Forest:
                 title = args[1] if len(args) > 1 else kwargs.get("title", "<no title given>")
                 return await eng.peer_exec(self.idx, self, a, title)
 
+        class Branch:
+            "What a proxy dataset hands out for an attribute it does not have: a truthy object."
+
+            def __init__(self, name):
+                self.name = name
+
+            def __repr__(self):
+                return f"Branch({self.name})"
+
+        class ProxyDataset(FakeDataset):
+            """A dataset class that exposes the branches of its files as attributes
+            (`ds.jets`, `ds.met` ...): ANY name that is not a real attribute gives a Branch -
+            also names a later version of the library may look for on a stream with
+            getattr(stream, name, None).  Dunder names are refused, as careful proxies do."""
+
+            def __getattr__(self, name):
+                if name.startswith("__") and name.endswith("__"):
+                    raise AttributeError(name)
+                return Branch(name)
+
+        class LabelledDataset(FakeDataset):
+            "A dataset class with bookkeeping attributes of its own, under everyday names."
+
+            title = "sample (class level)"
+            _title = "plot label"
+            name = "dataset-name"
+            _name = "internal-name"
+            executor = None
+            _executor = "grid-site-7"
+            metadata = {"campaign": "mc23"}
+            _metadata = {"x": 1}
+            cache = {}
+            _cache = {"k": "v"}
+            _hash = 12345
+            _id = 7
+            id = 8
+            key = "K"
+            _key = "_K"
+
         self.FakeDataset = FakeDataset
         self.WrappedDataset = WrappedDataset
+        self.ProxyDataset = ProxyDataset
+        self.LabelledDataset = LabelledDataset
 
     # -- bookkeeping -------------------------------------------------------------------------
     def stat(self, k, n=1):
@@ -1338,6 +1428,12 @@ class Forest:
         for i, d in enumerate(self.cfg["datasets"]):
             t = zoo.EVT[d["typed"]] if d["typed"] >= 0 else None
             cls = self.WrappedDataset if d.get("wrapped") else self.FakeDataset
+            if d.get("flavour") == "proxy":
+                cls = self.ProxyDataset
+                self.stat("datasets_with_catch_all_getattr")
+            elif d.get("flavour") == "labelled":
+                cls = self.LabelledDataset
+                self.stat("datasets_with_everyday_attribute_names")
             ds = cls(i, t, d.get("extra"))
             self.datasets[i] = ds
             self.add_stream(ds, i, None, "root", twin=ds)
@@ -1628,6 +1724,9 @@ class Forest:
             return self.derive_site(parent, op["lam"] % len(self.cfg["sites"]))
         k = op["lam"] % len(self.cfg["pool"])
         kind, src = self.cfg["pool"][k]
+        if op.get("src"):  # an explicit text (volume bursts: hundreds of distinct lambdas)
+            kind, src = op["src"]
+            mode = "str"
 
         def arg():
             if mode == "str":
@@ -1871,6 +1970,8 @@ class Forest:
         self.last_op = "qmetadata"
         if parent.made_by == "QMetaData":
             self.stat("probe_qmetadata_twice_in_a_row")
+        if op.get("burst"):
+            self.stat("fault_volume_burst_iterations")
         self.derive_stack = op.get("stack")
         self.derive_crash = op.get("crash")
         given = {k: qvalue(v) for k, v in op["md"].items()}  # the caller's own dict object
@@ -2092,6 +2193,8 @@ class Forest:
             wrs.append(weakref.ref(m.stream, lambda _r: died.append(1)))
         n = len(gone)
         m = cands = gone = None
+        if op.get("burst"):
+            self.stat("fault_volume_burst_iterations")
         if op.get("gc"):
             gc.collect()
             self.stat("lifetime_gc_collect")
